@@ -156,7 +156,8 @@ fn expect_int(rep: &mut Report, op: &str, sub: &'static str, case: u64, a: i64, 
     }
 }
 fn int_group<const N: usize>(rep: &mut Report, group: &str, names: [&str; N], sub: &'static str, case: u64, a: i64, b: i64, exp: i64, got: Result<[i64; N], String>) {
-    rep.distinct(("int", group.to_string(), bitlen(a), sgn(a), bitlen(b), sgn(b)));
+    // magnitude strata of 4 bits each for operand pairs
+    rep.distinct(("int", group.to_string(), (bitlen(a) + 3) / 4, sgn(a), (bitlen(b) + 3) / 4, sgn(b)));
     match got {
         Ok(v) => {
             for i in 0..N {
@@ -455,6 +456,9 @@ fn roundtrip_case(rep: &mut Report, rng: &mut Rng, sub: &'static str, case: u64)
     if err > 1 {
         rep.tally("roundtrip_inexact");
     }
+    if mag >= 1 << 30 {
+        rep.max("roundtrip_large_relerr_over_2^-22", err as f64 / (mag as f64 / 4194304.0));
+    }
     if rep.want_sample(sub) {
         rep.sample(sub, format!("Time({}) -> {} s -> Time({}), error {} ns", t, f(q.value), back, err));
     }
@@ -638,12 +642,12 @@ fn main() {
     rep.floor("dimension_checking_enabled", 1);
 
     // ---- 1. integer operators
-    for case in args.cases("int", 25_000, 2_500_000) {
+    for case in args.cases("int", 100_000, 10_000_000) {
         let mut rng = Rng::new(args.seed, 1801, case);
         int_case(&mut rep, &mut rng, "int", case);
     }
     // ---- 2a. Time -> Quantity value and unit
-    for case in args.cases("t2q", 40_000, 4_000_000) {
+    for case in args.cases("t2q", 150_000, 15_000_000) {
         let mut rng = Rng::new(args.seed, 1802, case);
         let t = gen_time(&mut rng);
         t2q_case(&mut rep, "t2q", case, t);
@@ -673,25 +677,25 @@ fn main() {
         rep.exhaustive("Time -> Quantity for +-(2^k + {-1,0,1}), k = 0..62");
     }
     // ---- 2b. monotonicity
-    for case in args.cases("mono", 15_000, 1_500_000) {
+    for case in args.cases("mono", 60_000, 6_000_000) {
         let mut rng = Rng::new(args.seed, 1803, case);
         mono_case(&mut rep, &mut rng, "mono", case);
     }
     // ---- 3. Quantity(seconds) -> Time, round trip, other units, dimensionless integer conversions
-    for case in args.cases("q2t", 40_000, 4_000_000) {
+    for case in args.cases("q2t", 150_000, 15_000_000) {
         let mut rng = Rng::new(args.seed, 1804, case);
         q2t_case(&mut rep, &mut rng, "q2t", case);
     }
-    for case in args.cases("roundtrip", 30_000, 3_000_000) {
+    for case in args.cases("roundtrip", 100_000, 10_000_000) {
         let mut rng = Rng::new(args.seed, 1805, case);
         roundtrip_case(&mut rep, &mut rng, "roundtrip", case);
     }
-    for case in args.cases("di-conv", 20_000, 2_000_000) {
+    for case in args.cases("di-conv", 60_000, 6_000_000) {
         let mut rng = Rng::new(args.seed, 1806, case);
         di_conv_case(&mut rep, &mut rng, "di-conv", case);
     }
     {
-        let reps = args.pick(8, 400);
+        let reps = args.pick(20, 2_000);
         let mut idx = 0u64;
         for _ in 0..reps {
             for m in -3..=3i8 {
@@ -708,7 +712,7 @@ fn main() {
     }
     // ---- 4. mixed operators x 49 units
     {
-        let reps = args.pick(40, 4_000);
+        let reps = args.pick(200, 20_000);
         let mut idx = 0u64;
         for _ in 0..reps {
             for m in -3..=3i8 {
@@ -734,11 +738,11 @@ fn main() {
     rep.floor("q2t_fractional_ns", 1_000);
     rep.floor("roundtrip_inexact", 5_000);
     rep.floor("q2di_fractional", 1_000);
-    rep.floor("units_time_rejected", 48 * 8);
-    rep.floor("units_di_rejected", 48 * 8);
+    rep.floor("units_time_rejected", 48 * 20);
+    rep.floor("units_di_rejected", 48 * 20);
     rep.floor("mixed_panic_both", 5_000);
     rep.floor("mixed_ok_both", 20_000);
-    rep.floor("mixed_cases_on_second", 40);
-    rep.floor("mixed_cases_on_dimensionless", 40);
+    rep.floor("mixed_cases_on_second", 200);
+    rep.floor("mixed_cases_on_dimensionless", 200);
     rep.finish(&args);
 }
